@@ -175,7 +175,7 @@ func loadPkgCache(lpkg *listedPackage, pkg *types.Package, files []*ast.File, in
 		if _, err := loaded.UnmarshalMsg(data); err != nil {
 			return pkgCache{}, fmt.Errorf("msgp decode: %w", err)
 		}
-		verifhook.Event("pkgcache.loaded", "for", lpkg.ImportPath, "key", verifhook.Hex(lpkg.GarbleActionID[:8]), "digest", verifhook.BytesDigest(data))
+		verifhook.Event("pkgcache.loaded", "for", lpkg.ImportPath, "key", verifhook.Hex(lpkg.GarbleActionID[:8]), "digest", verifhook.CanonDigest(loaded.ReflectObjectNames, loaded.ReflectAPIs))
 		return loaded, nil
 	}
 	return computePkgCache(fsCache, lpkg, pkg, files, info, ssaPkg)
@@ -273,12 +273,12 @@ func computePkgCache(fsCache *cache.Cache, lpkg *listedPackage, pkg *types.Packa
 	if err != nil {
 		return pkgCache{}, err
 	}
-	verifhook.Event("pkgcache.put", "for", lpkg.ImportPath, "key", verifhook.Hex(lpkg.GarbleActionID[:8]), "digest", verifhook.BytesDigest(data), "names", len(computed.ReflectObjectNames), "apis", len(computed.ReflectAPIs))
+	verifhook.Event("pkgcache.put", "for", lpkg.ImportPath, "key", verifhook.Hex(lpkg.GarbleActionID[:8]), "digest", verifhook.CanonDigest(computed.ReflectObjectNames, computed.ReflectAPIs), "names", len(computed.ReflectObjectNames), "apis", len(computed.ReflectAPIs))
 	verifhook.Point("pkgcache.beforePut")
 	if err := fsCache.PutBytes(pkgCacheKey(lpkg), data); err != nil {
 		return pkgCache{}, err
 	}
-	verifhook.Event("pkgcache.put.end", "for", lpkg.ImportPath, "key", verifhook.Hex(lpkg.GarbleActionID[:8]), "digest", verifhook.BytesDigest(data))
+	verifhook.Event("pkgcache.put.end", "for", lpkg.ImportPath, "key", verifhook.Hex(lpkg.GarbleActionID[:8]), "digest", verifhook.CanonDigest(computed.ReflectObjectNames, computed.ReflectAPIs))
 	return computed, nil
 }
 
